@@ -1119,6 +1119,15 @@ def _variants(
             agg=True,
             methods=[("_size", "p"), ("max", "p")],
         )
+        emit(
+            "p_size_only",  # an aggregate that reads NO column: the step asks nothing of its source, which still needs its own keys / filters
+            "project",
+            ["project", {"ops": {n1: "_size()"}, "group_by": []}],
+            proj_schema([], {n1: ("int", "agg0")}),
+            reduced=True,
+            agg=True,
+            methods=[("_size", "p")],
+        )
         if K is not None and K != A and [K] != gb_a:
             emit(
                 "p_size_k",
